@@ -236,6 +236,7 @@ def bounds(tier, seed):
     return {'a_small_scope': 'all ordered pairs of formats with n_word<=%d, n_frac -1..n_word+1, both signednesses x every code pair (broadcast '
                              'column x row; transposed 2-d views; after a prelude of same/smallest/out= operations on the same operands) x {+,-,*} x 3 call routes (operator route only when a word exceeds 3, thorough 4); vec x scalar and scalar x vec shapes; scalar x scalar for n_word<=%d'
                              % ((4, 2) if tier == 'quick' else (5, 3)),
+            'tmpl_environment': 'the n_word<=3 sweep repeated with a class-level template (Fxp.template) of either signedness in force',
             'b_corners': 'all ordered pairs of formats n_word in %s, n_frac in {-1,0,1,mid,n-1,n,n+1} with result word<=53 x {lo,hi,interior}^2 x 3 ops'
                          % ([1, 2, 3, 5, 8, 13, 16, 21, 26] if tier == 'quick' else '1..26'),
             'c_trees': 'closure of %d leaf formats x {lo,hi,+-1 code} under + - *: full to depth %d, then one-sided (new elements against leaves, '
@@ -250,6 +251,9 @@ def shards(tier, seed):
     fs = small_formats(k)
     for i in range(len(fs)):
         out.append({'part': 'a', 'k': k, 'i': i, 'ks': 2 if tier == 'quick' else 3, 'k_routes': 3 if tier == 'quick' else 4})
+    nfs = len(small_formats(3))
+    for lo in range(0, nfs, 6):
+        out.append({'part': 'tmpl', 'lo': lo, 'hi': lo + 6})
     nws = [1, 2, 3, 5, 8, 13, 16, 21, 26] if tier == 'quick' else list(range(1, 27))
     cf = corner_formats(nws)
     for i in range(0, len(cf), 4 if tier == 'quick' else 2):
@@ -270,6 +274,26 @@ def shards(tier, seed):
 def run_shard(sh):
     reset_class_state()
     acc = Acc()
+    if sh['part'] == 'tmpl':
+        # the same small-scope sweep with a class-level template in force (Fxp.template): results of + - * are built through
+        # the constructor, which then starts from a copy of the template; sizes and values must not be affected
+        fs = small_formats(3)
+        for tf in (Fmt(False, 8, 2), Fmt(True, 6, 1)):
+            from ..common import Fxp as _F
+            _F.template = None
+            tmpl = _F(None, tf.signed, tf.n_word, tf.n_frac)
+            _F.template = tmpl
+            try:
+                for fxm in fs[sh['lo']:sh['hi']]:
+                    xs = list(range(fxm.lo, fxm.hi + 1))
+                    for fym in fs:
+                        ys = list(range(fym.lo, fym.hi + 1))
+                        for op in OPS:
+                            judge_pair(acc, fxm, fym, xs, ys, op, 'operator', 'outer', 'tmpl')
+                            judge_pair(acc, fxm, fym, [xs[0]], [ys[-1]], op, 'function', 'scalar', 'tmpl')
+            finally:
+                _F.template = None
+        return acc
     if sh['part'] == 'a':
         fs = small_formats(sh['k'])
         fxm = fs[sh['i']]
@@ -446,6 +470,15 @@ def replay(case):
                               {'part': 'T', 'op': op})
         except Exception as e:
             acc.violation('exception', case, repr(e), {'part': 'T', 'op': op})
+    elif case['part'] == 'tmpl':
+        from ..common import Fxp as _F
+        for tf in (Fmt(False, 8, 2), Fmt(True, 6, 1)):
+            _F.template = None
+            _F.template = _F(None, tf.signed, tf.n_word, tf.n_frac)
+            try:
+                judge_pair(acc, Fmt(*case['fx']), Fmt(*case['fy']), case['xs'], case['ys'], case['op'], case['route'], case['shape'], 'tmpl')
+            finally:
+                _F.template = None
     else:
         judge_pair(acc, Fmt(*case['fx']), Fmt(*case['fy']), case['xs'], case['ys'], case['op'], case['route'], case['shape'], case['part'], case.get('by', 'raw'), case.get('prelude', False))
     return acc.violations
